@@ -15,7 +15,8 @@ RULE = (
     "N <= 8 x farmer kind (Runner, Runner->DataFrame, Harvester with every "
     "overwrite policy over disjoint / overlapping existing data and both "
     "engines, Sampler) x shuffle x batch request x which of grow / reap use a "
-    "Crop rebuilt from disk; compared with the direct call on a twin farmer; "
+    "Crop rebuilt from disk x (harvesters) another session harvesting an "
+    "unrelated region into the same file between sow and reap; compared with the direct call on a twin farmer; "
     "non-trivial = >= 2 settings and >= 2 batches"
 )
 ASSUMPTIONS = [
@@ -58,6 +59,10 @@ def cases(tier, seed):
             yield {"desc": desc, "farmer": far, "kind": kind, "n": n,
                    "mode": mode, "req": req, "shuffle": shuffle, "reload": rl,
                    "policy": pol}
+            if far.startswith("harv") and (tier == "thorough" or h == 0):
+                yield {"desc": desc, "farmer": far, "kind": kind, "n": n,
+                       "mode": mode, "req": req, "shuffle": shuffle,
+                       "reload": rl, "policy": pol, "late": True}
             if desc == "attrs" and far != "sampler" and pol in (None, (None, None)):
                 # an extra constant given for this run only (overrides the
                 # runner's stored constant)
@@ -242,15 +247,16 @@ def check_case(case):
         fn_keep = farmer.fn
         if how == "conflict":
             farmer.fn = f1
-        if how == "disjoint":
+        if how in ("disjoint", "late"):
             # same shape of region, other coordinate values
+            off = 100 if how == "disjoint" else 200
             if kind == "grid":
                 a0 = list(dcombos)[0]
                 sub = dict(dcombos)
-                sub[a0] = [x + 100 for x in dcombos[a0]][:1]
+                sub[a0] = [x + off for x in dcombos[a0]][:1]
                 first = None
             else:
-                first = [tuple(x + 100 for x in dcases[0])]
+                first = [tuple(x + off for x in dcases[0])]
         kw = dict(verbosity=0)
         if kind == "grid":
             farmer.harvest_combos(sub, **kw)
@@ -264,6 +270,10 @@ def check_case(case):
     if far.startswith("harv"):
         seed_existing(farmer, how)
         seed_existing(twin, how)
+    late = far.startswith("harv") and case.get("late")
+    if late:
+        # (the reference goes through one object throughout)
+        seed_existing(twin, "late")
     # ---- twin: the direct run ---------------------------------------------
     builtins._xv_draws = {}
     try:
@@ -295,6 +305,10 @@ def check_case(case):
                            constants=case.get("sowconst"))
         B = crop.num_batches
         rl = case["reload"]
+        if late:
+            # another session harvests an unrelated region into the same file
+            # while the crop is out
+            seed_existing(make_farmer(d), "late")
         gcrop = xyz.Crop(name="k", parent_dir=d) if rl in (1, 3) else crop
         for i in range(B, 0, -1):
             grow(i, crop=gcrop, verbosity=0)
